@@ -241,8 +241,9 @@ impl Scenario for C28Scn {
             let k = *rng.pick(&with_props);
             let np = corpus_gen::n_props(k) as u64;
             let writable: Vec<u8> = gen_props(k).iter().enumerate().filter(|(_, t)| t.3 != "read").map(|(i, _)| i as u8).collect();
-            // a property declared `v` accepts every type by definition of its Rust type
-            let strict: Vec<u8> = gen_props(k).iter().enumerate().filter(|(_, t)| t.1 != "v").map(|(i, _)| i as u8).collect();
+            // a property whose type is or contains `v` accepts other types too, by definition of its Rust type
+            // (part of the known finding about variant-typed properties)
+            let strict: Vec<u8> = gen_props(k).iter().enumerate().filter(|(_, t)| !t.1.contains('v')).map(|(i, _)| i as u8).collect();
             let n = rng.range(1, 10);
             let ops = (0..n)
                 .map(|_| match rng.below(12) {
